@@ -419,6 +419,13 @@ MUTATIONS += [
     dict(id="C05-cache-backend-error-is-warning", prop="C05", file=CKF, old="                (_, Err(err)) => {\n                    collector.add_error(CheckError::ErrorReadingFile {", new="                (_, Err(err)) => {\n                    collector.add_warn(CheckError::ErrorReadingFile {"),
 ]
 
+# ---- C12 merge heap order
+TRF = "crates/core/src/blob/tree.rs"
+MUTATIONS += [
+    dict(id="C12-merge-heap-by-escaped-name", prop="C12", file=TRF, old="            self.0.name().cmp(&other.0.name()).reverse()", new="            self.0.name.cmp(&other.0.name).reverse()"),
+    dict(id="C12-merge-heap-not-reversed", prop="C12", file=TRF, old="            self.0.name().cmp(&other.0.name()).reverse()", new="            self.0.name().cmp(&other.0.name())"),
+]
+
 HARMLESS = [
     dict(id="H-C05-trees-symlink-continue", prop="C05", file=CK, old="        for node in tree.nodes {\n            match node.node_type {", new="        for node in tree.nodes {\n            if node.node_type == NodeType::Symlink {\n                continue;\n            }\n            match node.node_type {"),
     # independent statements reordered
